@@ -120,7 +120,7 @@ def coq_make(targets: Sequence[str], timeout: int = 1500, force: Sequence[str] =
 
 
 # ---------------------------------------------------------------- parsing Coq's printed terms
-_TOK = re.compile(r'\s*(?:(\"(?:[^\"]|\"\")*\")|(\{\||\|\}|:=|[\[\]\(\);,#])|(-?\d+)|(%[A-Za-z_]+)|([A-Za-z_][A-Za-z0-9_\.\']*))')
+_TOK = re.compile(r'\s*(?:(\"(?:[^\"]|\"\")*\")|(\{\||\|\}|:=|[\[\]\(\);,#])|(-?0x[0-9a-fA-F]+(?:\.[0-9a-fA-F]+)?(?:p[+-]?\d+)?|-?\d+(?:\.\d+)?(?:e[+-]?\d+)?)|(%[A-Za-z_]+)|([A-Za-z_][A-Za-z0-9_\.\']*))')
 
 
 def _tokens(s: str) -> List[Tuple[str, str]]:
@@ -159,6 +159,23 @@ def parse_coq_term(s: str) -> Any:
         k, v = peek()
         if k == "int":
             pos += 1
+            if "0x" in v:  # hexadecimal rational notation
+                from fractions import Fraction
+                neg = v.startswith("-")
+                body = v.lstrip("-")[2:]
+                exp = 0
+                if "p" in body:
+                    body, e = body.split("p")
+                    exp = int(e)
+                ip, _, fp = body.partition(".")
+                f = Fraction(int(ip or "0", 16)) + (Fraction(int(fp, 16), 16 ** len(fp)) if fp else 0)
+                f = f * (Fraction(2) ** exp)
+                f = -f if neg else f
+                return ("Q", f.numerator, f.denominator)
+            if "." in v or "e" in v:  # Coq prints some rationals in decimal notation
+                from fractions import Fraction
+                f = Fraction(v)
+                return ("Q", f.numerator, f.denominator)
             return int(v)
         if k == "str":
             pos += 1
@@ -251,6 +268,7 @@ def coq_eval(header: str, exprs: Sequence[str], tag: str, shard: int = 400, time
         name = f"{tag}_{si // shard:04d}"
         body = header + "\nSet Printing Width 100000.\nSet Printing Depth 10000000.\n"
         body += "Definition cases := " + coq_list(exprs[si:si + shard]) + ".\n"
+        # print rationals as `p # q` (never in decimal/hexadecimal number notation, never as bare integers)
         body += "Eval vm_compute in cases.\n"
         (CASES / f"{name}.v").write_text(body)
         files.append(name)
